@@ -24,6 +24,85 @@ const P: &str = "C01";
 const BOUNDS: [u32; 12] = [0, 1, 2, 7, 8, 9, 15, 16, 255, 256, 65534, 65535];
 
 /// grammar-generated application fragment (well-formed and malformed), at most `max` bytes
+/// a file object (group 70) in its proper layout, with the offset and size fields that describe its strings set to
+/// boundary values some of the time: the parsers add them to constants and to each other
+fn structured_file_object(r: &mut Rng, v: u8) -> Vec<u8> {
+    let edge = |r: &mut Rng, honest: u16| -> u16 {
+        if r.chance(1, 3) {
+            *r.pick(&[
+                0u16, 1, 11, 12, 13, 19, 20, 21, 25, 26, 27, 255, 256, 0x7FFF, 0x8000, 0xFFE5, 0xFFE6, 0xFFEB, 0xFFEC, 0xFFF3, 0xFFF4,
+                0xFFFE, 0xFFFF,
+            ])
+        } else {
+            honest
+        }
+    };
+    let text = |r: &mut Rng| -> Vec<u8> {
+        let n = r.range(0, 12) as usize;
+        (0..n)
+            .map(|_| if r.chance(1, 8) { r.u8() } else { b'a' + r.below(26) as u8 })
+            .collect()
+    };
+    let mut o = vec![];
+    match v {
+        2 => {
+            let (user, pass) = (text(r), text(r));
+            o.extend_from_slice(&edge(r, 12).to_le_bytes());
+            o.extend_from_slice(&edge(r, user.len() as u16).to_le_bytes());
+            o.extend_from_slice(&edge(r, 12 + user.len() as u16).to_le_bytes());
+            o.extend_from_slice(&edge(r, pass.len() as u16).to_le_bytes());
+            o.extend_from_slice(&(r.u64() as u32).to_le_bytes());
+            o.extend(user);
+            o.extend(pass);
+        }
+        3 => {
+            let name = text(r);
+            o.extend_from_slice(&edge(r, 26).to_le_bytes());
+            o.extend_from_slice(&edge(r, name.len() as u16).to_le_bytes());
+            o.extend_from_slice(&ra::time48(r.u64() & 0xFFFF_FFFF_FFFF));
+            o.extend_from_slice(&r.u16().to_le_bytes());
+            o.extend_from_slice(&(r.u64() as u32).to_le_bytes());
+            o.extend_from_slice(&(r.u64() as u32).to_le_bytes());
+            o.extend_from_slice(&edge(r, 1).to_le_bytes());
+            o.extend_from_slice(&edge(r, 512).to_le_bytes());
+            o.extend_from_slice(&r.u16().to_le_bytes());
+            o.extend(name);
+        }
+        4 => {
+            o.extend_from_slice(&(r.u64() as u32).to_le_bytes());
+            o.extend_from_slice(&(r.u64() as u32).to_le_bytes());
+            o.extend_from_slice(&edge(r, 512).to_le_bytes());
+            o.extend_from_slice(&r.u16().to_le_bytes());
+            o.push(r.u8());
+            o.extend(text(r));
+        }
+        5 => {
+            o.extend_from_slice(&(r.u64() as u32).to_le_bytes());
+            o.extend_from_slice(&(*r.pick(&[0u32, 1, 0x7FFF_FFFF, 0x8000_0000, 0xFFFF_FFFF])).to_le_bytes());
+            o.extend(text(r));
+        }
+        6 => {
+            o.extend_from_slice(&(r.u64() as u32).to_le_bytes());
+            o.extend_from_slice(&(*r.pick(&[0u32, 1, 0x7FFF_FFFF, 0x8000_0000, 0xFFFF_FFFF])).to_le_bytes());
+            o.push(r.u8());
+            o.extend(text(r));
+        }
+        7 => {
+            let name = text(r);
+            o.extend_from_slice(&edge(r, 20).to_le_bytes());
+            o.extend_from_slice(&edge(r, name.len() as u16).to_le_bytes());
+            o.extend_from_slice(&edge(r, 1).to_le_bytes());
+            o.extend_from_slice(&(r.u64() as u32).to_le_bytes());
+            o.extend_from_slice(&ra::time48(r.u64() & 0xFFFF_FFFF_FFFF));
+            o.extend_from_slice(&r.u16().to_le_bytes());
+            o.extend_from_slice(&r.u16().to_le_bytes());
+            o.extend(name);
+        }
+        _ => o.extend(text(r)),
+    }
+    o
+}
+
 pub fn hostile_fragment(r: &mut Rng, max: usize) -> Vec<u8> {
     let vars = ra::all_variations();
     let seq = r.below(16) as u8;
@@ -54,16 +133,23 @@ pub fn hostile_fragment(r: &mut Rng, max: usize) -> Vec<u8> {
     }
     let nh = r.below(5);
     for _ in 0..nh {
-        let (g, v) = if r.chance(1, 10) {
+        let (mut g, mut v) = if r.chance(1, 10) {
             (r.u8(), r.u8())
         } else {
             *r.pick(&vars)
         };
-        let q = if r.chance(1, 12) {
+        let mut q = if r.chance(1, 12) {
             r.u8()
         } else {
             r.pick_copy(&[0x00u8, 0x01, 0x06, 0x07, 0x08, 0x17, 0x28, 0x5B])
         };
+        // file objects in their own layout often enough to reach the code behind each variation
+        let structured = r.chance(1, 12);
+        if structured {
+            g = 70;
+            v = r.range(2, 8) as u8;
+            q = 0x5B;
+        }
         f.extend_from_slice(&[g, v, q]);
         let kind = ra::kind(g, v);
         let sz = match kind {
@@ -114,14 +200,19 @@ pub fn hostile_fragment(r: &mut Rng, max: usize) -> Vec<u8> {
             0x5B => {
                 let c = if r.chance(1, 5) { r.u8() } else { 1 };
                 f.push(c);
-                let inner = r.range(0, 40) as usize;
-                let declared = if r.chance(1, 3) {
+                let body = if structured {
+                    structured_file_object(r, v)
+                } else {
+                    let inner = r.range(0, 40) as usize;
+                    r.bytes(inner)
+                };
+                let declared = if r.chance(1, if structured { 8 } else { 3 }) {
                     r.u16()
                 } else {
-                    inner as u16
+                    body.len() as u16
                 };
                 f.extend_from_slice(&declared.to_le_bytes());
-                f.extend(r.bytes(inner));
+                f.extend(body);
                 count = 0;
             }
             _ => {}
